@@ -398,7 +398,8 @@ class Check:
         known finding is matched on (family + the specific input/construct)."""
         for k in self.known:
             m = k.get("match", {})
-            if m.get("construct") == construct or (m.get("prefix") and construct.startswith(m["prefix"])):
+            if (m.get("construct") == construct or (m.get("prefix") and construct.startswith(m["prefix"]))
+                    or any(x in construct for x in m.get("any_contains", []))):
                 ent = self.known_hit.setdefault(k["what"], 0)
                 self.known_hit[k["what"]] = ent + 1
                 return
